@@ -7,6 +7,8 @@ package p
 import (
 	"context"
 	"fmt"
+	"math"
+	"math/big"
 	"strconv"
 	"time"
 
@@ -136,6 +138,72 @@ func (t SimDurationValue) Equal(other attr.Value) bool {
 func (t SimDurationValue) IsNull() bool    { return t.Null }
 func (t SimDurationValue) IsUnknown() bool { return t.Unknown }
 func (t SimDurationValue) String() string {
+	if t.Unknown {
+		return attr.UnknownValueString
+	}
+	if t.Null {
+		return attr.NullValueString
+	}
+	return strconv.FormatInt(int64(t.Value), 10)
+}
+
+// SimInt32Type / SimInt32Value: an attribute type whose Go value is int32 (a schema_types override with a
+// cast_to_type that differs from the stock int64).
+// (a schema_types override is emitted as an expression, like types.Int64Type, so the name is a variable)
+type simInt32T struct{}
+
+var SimInt32Type = simInt32T{}
+
+func (t simInt32T) ApplyTerraform5AttributePathStep(step tftypes.AttributePathStep) (interface{}, error) {
+	return nil, fmt.Errorf("cannot apply AttributePathStep %T to %s", step, t.String())
+}
+func (t simInt32T) String() string { return "SimInt32Type" }
+func (t simInt32T) Equal(o attr.Type) bool {
+	_, ok := o.(simInt32T)
+	return ok
+}
+func (t simInt32T) TerraformType(context.Context) tftypes.Type { return tftypes.Number }
+func (t simInt32T) ValueFromTerraform(_ context.Context, in tftypes.Value) (attr.Value, error) {
+	if !in.IsKnown() {
+		return SimInt32Value{Unknown: true}, nil
+	}
+	if in.IsNull() {
+		return SimInt32Value{Null: true}, nil
+	}
+	bf := new(big.Float)
+	if err := in.As(&bf); err != nil {
+		return nil, err
+	}
+	n, acc := bf.Int64()
+	if acc != big.Exact || n > math.MaxInt32 || n < math.MinInt32 {
+		return nil, fmt.Errorf("value %s is not an int32", bf)
+	}
+	return SimInt32Value{Value: int32(n)}, nil
+}
+
+type SimInt32Value struct {
+	Unknown bool
+	Null    bool
+	Value   int32
+}
+
+func (t SimInt32Value) Type(context.Context) attr.Type { return SimInt32Type }
+func (t SimInt32Value) ToTerraformValue(context.Context) (tftypes.Value, error) {
+	if t.Null {
+		return tftypes.NewValue(tftypes.Number, nil), nil
+	}
+	if t.Unknown {
+		return tftypes.NewValue(tftypes.Number, tftypes.UnknownValue), nil
+	}
+	return tftypes.NewValue(tftypes.Number, new(big.Float).SetInt64(int64(t.Value))), nil
+}
+func (t SimInt32Value) Equal(other attr.Value) bool {
+	o, ok := other.(SimInt32Value)
+	return ok && t == o
+}
+func (t SimInt32Value) IsNull() bool    { return t.Null }
+func (t SimInt32Value) IsUnknown() bool { return t.Unknown }
+func (t SimInt32Value) String() string {
 	if t.Unknown {
 		return attr.UnknownValueString
 	}
